@@ -1,4 +1,4 @@
-CONSTANTS PesResync = FALSE HdlVal = 5 MinPL = 27 TtxN = 2 VpsN = 1 TSP = 11 HL = 17 TSH = 10 MaxLines = 64
+CONSTANTS PesResync = TRUE HdlVal = 5 MinPL = 27 TtxN = 2 VpsN = 1 TSP = 11 HL = 17 TSH = 10 MaxLines = 64
   Streams <- StreamsT CorLines = {1, 2, 64}
 SPECIFICATION Spec
 INVARIANTS PartitionInvariance OnePiece Recovery NoLookaheadOverrun Consumed
